@@ -30,4 +30,27 @@ def rotation_matrix_ypr {K : Type} [Add K] [Sub K] [Mul K] [Div K] [Neg K]
     (o : Ops K) (yaw : K) (pitch : K) (roll : K) : Arim.Geo.M3 K :=
   (Arim.Geo.mmul (Arim.Geo.mmul (rotation_matrix_z o yaw) (rotation_matrix_y o pitch)) (rotation_matrix_x o roll))
 
+/-- generated from `arim/geometry.py`, function `to_gcs` (line 971): one point: `coords_cs`, `origins` are rows of the (..., 3) arrays, `bases` the 3x3 basis of that point -/
+def to_gcs {K : Type} [Add K] [Sub K] [Mul K] [Div K] [Neg K]
+    (o : Ops K) (coords_cs : Arim.P3 K) (bases : Arim.Geo.M3 K) (origins : Arim.P3 K) : Arim.P3 K :=
+  (Arim.Geo.vadd (Arim.Geo.vecMul coords_cs bases) origins)
+
+/-- generated from `arim/geometry.py`, function `from_gcs` (line 999): one point -/
+def from_gcs {K : Type} [Add K] [Sub K] [Mul K] [Div K] [Neg K]
+    (o : Ops K) (points_gcs : Arim.P3 K) (bases : Arim.Geo.M3 K) (origins : Arim.P3 K) : Arim.P3 K :=
+  (Arim.Geo.mulVec bases (Arim.Geo.vsub points_gcs origins))
+
+/-- generated from `arim/geometry.py`, function `rotate` (line 930): one point, `centre=None` -/
+def rotate_about_origin {K : Type} [Add K] [Sub K] [Mul K] [Div K] [Neg K]
+    (o : Ops K) (coords : Arim.P3 K) (rotation_matrix : Arim.Geo.M3 K) : Arim.P3 K :=
+  let rotated := (Arim.Geo.mulVec rotation_matrix coords)
+  rotated
+
+/-- generated from `arim/geometry.py`, function `rotate` (line 930): one point, a centre given -/
+def rotate_about_centre {K : Type} [Add K] [Sub K] [Mul K] [Div K] [Neg K]
+    (o : Ops K) (coords : Arim.P3 K) (rotation_matrix : Arim.Geo.M3 K) (centre : Arim.P3 K) : Arim.P3 K :=
+  let centre := centre
+  let rotated := (Arim.Geo.vadd (Arim.Geo.mulVec rotation_matrix (Arim.Geo.vsub coords centre)) centre)
+  rotated
+
 end Arim.Src
